@@ -46,6 +46,7 @@ fn base_sc() -> Scenario {
         post_gates: false,
         faults: 0,
         faultable: no_fault,
+        cold_writer_cache: false,
     }
 }
 
